@@ -263,37 +263,172 @@ class CloseDom(ValueDomain):
         return st
 
 
-def check_close(ctx, prog):
-    fn = ctx.need_fn(prog, "ncmpio_close")
-    frees = patterns.call_sites(fn, lambda n: n == "ncmpio_free_NC")
-    ctx.require(frees, "ncmpio_close no longer calls ncmpio_free_NC")
-    ex = Explorer(fn, CloseDom(fn)).run(State())
-    ctx.states += ex.visited
-    leak = {}
-    silent = None
-    for st, key in ex.exits:
-        for q in QUEUES:
-            if st.has("$leak:" + q):
-                leak.setdefault(q, (st, key))
-        if st.has("$pending"):
-            r = st.get("$ret")
-            if not isinstance(r, AVal) or r.may_be_zero():
-                silent = (st, key)
-    for q in QUEUES:
-        if q in leak:
-            st, key = leak[q]
-            ctx.fail("R3.close", fn.name, q, "a path reaches ncmpio_free_NC(ncp) without having tested ncp->%s empty "
-                     "or cancelled its requests: pending requests are dropped without ncmpio_cancel (queue memory "
-                     "leaked, user buffers left byte-swapped)" % q, fn=fn, line=frees[0][2].get("l", fn.line),
-                     detail={"path": ex.describe_path(key)})
+class _IdDom(ValueDomain):
+    """tracks only the id lvalues handed to del_from_PNCList (e.g. `*ncidp`, `ncid`)"""
+    def __init__(self, fn, keys):
+        ValueDomain.__init__(self, fn)
+        self.keys = keys
+        self.seen = {}
+
+    def tracked(self, key):
+        return key in self.keys or isinstance(key, str)
+
+    def on_call(self, call, st, blk, idx):
+        if call.get("fn") == "del_from_PNCList" and call.get("args"):
+            self.seen.setdefault(id(call), []).append(self.eval(call["args"][0], st))
+        return st
+
+
+def check_slot_arg(ctx, prog):
+    """the id passed to del_from_PNCList is the id the table handed out: on no path has it been overwritten with a constant
+    (`*ncidp = -1` before the call frees nothing, writes outside the table and leaves the slot pointing at a freed object)"""
+    n = 0
+    for fn in prog.all_functions():
+        sites = patterns.call_sites(fn, lambda nm: nm == "del_from_PNCList")
+        if not sites:
+            continue
+        keys = {lvalue_key(c["args"][0]) for b, i, c in sites if c.get("args")}
+        keys.discard(None)
+        dom = _IdDom(fn, keys)
+        ex = Explorer(fn, dom, max_states=200000)
+        try:
+            ex.run(State())
+        except Budget as e:
+            raise AnalysisBroken("R3.slot: %s" % e)
+        ctx.states += ex.visited
+        for b, i, c in sites:
+            n += 1
+            ctx.functions_analysed.add((fn.unit.name, fn.name))
+            inst = "%s:del_from_PNCList(%s)" % (fn.name, canon(c["args"][0]))
+            vals = dom.seen.get(id(c), [])
+            bad = None
+            for v in vals:
+                if isinstance(v, AVal) and v.kind == "fin" and v.s and all(isinstance(x, int) for x in v.s):
+                    bad = sorted(v.s)
+            if bad is not None:
+                ctx.fail("R3.slot", fn.name, "del-arg", "del_from_PNCList(%s) can be reached with the argument already overwritten by the "
+                         "constant %s: the slot of the id that was handed out keeps pointing at the object freed next, and "
+                         "pnc_filelist[%s] is written" % (canon(c["args"][0]), bad, bad[0]), fn=fn, line=c.get("l", 0), inst=inst)
+            elif not vals:
+                ctx.ok("R3.slot", inst, "unreachable in this build", nontrivial=False)
+            else:
+                ctx.ok("R3.slot", inst, "the argument still holds the id the table handed out on every path")
+    ctx.require(n >= 4, "R3.slot: only %d calls of del_from_PNCList found" % n)
+
+
+class _OpenDom(ValueDomain):
+    """ncmpi_create / ncmpi_open: the driver call fails with a fatal code; was the id slot given back?"""
+    def __init__(self, fn, call_id, code):
+        ValueDomain.__init__(self, fn)
+        self.call_id = call_id
+        self.code = code
+
+    def tracked(self, key):
+        if isinstance(key, str):
+            return True
+        if key[0] == "v":
+            v = self.fn.vars.get(key[1])
+            return v is not None and self.fn.type(v["t"]).get("k") == "int" and v.get("n") in ("err", "status", "mpireturn")
+        return False
+
+    def call_value(self, call, st):
+        if id(call) == self.call_id:
+            return fin(self.code)
+        f = call.get("fn") or ""
+        if f.startswith(("MPI_", "PMPI_")):
+            return ZERO
+        return TOP
+
+    def on_call(self, call, st, blk, idx):
+        if id(call) == self.call_id:
+            st = st.set("$drv", ONE)
+        if call.get("fn") == "del_from_PNCList":
+            st = st.set("$del", ONE)
+        return st
+
+    def on_elem(self, elem, st, blk, idx):
+        if elem.get("k") == "ret":
+            return st.set("$ret", self.eval(elem.get("e"), st) if elem.get("e") is not None else None)
+        return st
+
+
+def check_failed_open(ctx, prog, fatal_code):
+    """when the driver's create / open fails with a fatal error, every path gives the id slot back and returns an error -
+    whatever non-fatal condition (an inconsistent mode argument) had been noted in the status before"""
+    from callgraph import slot_of_call
+    n = 0
+    for name, slot in (("ncmpi_create", "create"), ("ncmpi_open", "open")):
+        fn = ctx.need_fn(prog, name)
+        calls = [c for b, i, e in fn.elements() for c in walk(e) if c.get("k") == "call" and c.get("fn") is None and slot_of_call(c) == slot]
+        ctx.require(len(calls) == 1, "%s: expected one driver->%s call, found %d" % (name, slot, len(calls)))
+        dom = _OpenDom(fn, id(calls[0]), fatal_code)
+        ex = Explorer(fn, dom, max_states=400000)
+        try:
+            ex.run(State())
+        except Budget as e:
+            raise AnalysisBroken("R3.slot: %s" % e)
+        ctx.states += ex.visited
+        ctx.functions_analysed.add((fn.unit.name, fn.name))
+        n += 1
+        bad = None
+        for st, key in ex.exits:
+            if not st.has("$drv"):
+                continue
+            r = st.get("$ret", None)
+            if not st.has("$del"):
+                bad = bad or ("keeps the id slot (and goes on with a NULL driver object)", key)
+            elif not isinstance(r, AVal) or r.may_be_zero():
+                bad = bad or ("returns NC_NOERR", key)
+        inst = "%s:driver->%s fails" % (name, slot)
+        if bad:
+            ctx.fail("R3.slot", name, "driver-fail", "when driver->%s fails with a fatal error a path %s: the caller receives an id "
+                     "that crashes the next call on it" % (slot, bad[0]), fn=fn, line=calls[0].get("l", 0), inst=inst,
+                     detail={"path": ex.describe_path(bad[1])})
         else:
-            ctx.ok("R3.close", "ncmpio_close:" + q, "every path to ncmpio_free_NC tests the queue empty or cancels it")
-    if silent:
-        st, key = silent
-        ctx.fail("R3.close", fn.name, "NC_EPENDING", "a path that found pending requests can return NC_NOERR",
-                 fn=fn, line=fn.line, detail={"path": ex.describe_path(key), "exit_state": repr(st)})
-    else:
-        ctx.ok("R3.close", "ncmpio_close:NC_EPENDING", "paths with pending requests return non-zero")
+            ctx.ok("R3.slot", inst, "every path gives the slot back and returns the error")
+    return n
+
+
+def check_close(ctx, prog):
+    # every function that releases the live file object (ncmpio_free_NC(ncp)): close and abort
+    fns = [fn for fn in prog.all_functions()
+           if any(strip(c["args"][0]).get("k") == "ref" and strip(c["args"][0]).get("n") == "ncp"
+                  for b, i, c in patterns.call_sites(fn, lambda n: n == "ncmpio_free_NC")) and fn.name != "ncmpio_free_NC"
+           # ... of a file that was open before the call (the object comes in through the driver's `ncdp` argument; open and
+           # create release an object they have just made)
+           and any(p["n"] == "ncdp" for p in fn.params)]
+    names = sorted(fn.name for fn in fns)
+    ctx.require("ncmpio_close" in names and len(fns) >= 2, "expected ncmpio_close and ncmpio_abort to release the file object, found %s" % names)
+    for fn in fns:
+        frees = patterns.call_sites(fn, lambda n: n == "ncmpio_free_NC")
+        ex = Explorer(fn, CloseDom(fn)).run(State())
+        ctx.states += ex.visited
+        ctx.functions_analysed.add((fn.unit.name, fn.name))
+        leak = {}
+        silent = None
+        for st, key in ex.exits:
+            for q in QUEUES:
+                if st.has("$leak:" + q):
+                    leak.setdefault(q, (st, key))
+            if st.has("$pending"):
+                r = st.get("$ret")
+                if not isinstance(r, AVal) or r.may_be_zero():
+                    silent = (st, key)
+        for q in QUEUES:
+            if q in leak:
+                st, key = leak[q]
+                ctx.fail("R3.close", fn.name, q, "a path reaches ncmpio_free_NC(ncp) without having tested ncp->%s empty "
+                         "or cancelled its requests: pending requests are dropped without ncmpio_cancel (queue memory "
+                         "leaked, user buffers left byte-swapped)" % q, fn=fn, line=frees[0][2].get("l", fn.line),
+                         detail={"path": ex.describe_path(key)})
+            else:
+                ctx.ok("R3.close", "%s:%s" % (fn.name, q), "every path to ncmpio_free_NC tests the queue empty or cancels it")
+        if silent:
+            st, key = silent
+            ctx.fail("R3.close", fn.name, "NC_EPENDING", "a path that found pending requests can return NC_NOERR",
+                     fn=fn, line=fn.line, detail={"path": ex.describe_path(key), "exit_state": repr(st)})
+        else:
+            ctx.ok("R3.close", "%s:NC_EPENDING" % fn.name, "paths with pending requests return non-zero")
 
 
 # Leak reports that are infeasible for a reason outside one function, each with the side condition the checker re-tests.
@@ -510,6 +645,8 @@ def run(ctx):
     check_contract(ctx, prog)
     check_uses(ctx, prog)
     check_slot(ctx, prog)
+    check_slot_arg(ctx, prog)
+    check_failed_open(ctx, prog, -35)        # NC_EEXIST: any code that is not one of the non-fatal ones
     check_close(ctx, prog)
     from rules import r3mpitype, r3siblings
     from callgraph import CallGraph as _CG
